@@ -75,23 +75,27 @@ func lexCase(t *vlib.T, fam, src string) {
 		if strings.Contains(src, "x") || strings.Contains(src, "m") {
 			ctxs = lexCtxs
 		}
-		return runSource(fam, src, ctxs, hasOpener(src), nil)
+		return runSource(fam, src, ctxs, hasOpener(src), nil, nil)
 	})
 	if fam[len(fam)-1] == 'P' { // padded twin
 		key = fam + "+pad|" + src
 		tcase(t, key, func() *vlib.Outcome {
-			return runSource(fam+"+pad", pad+src, lexCtxs[:1], hasOpener(src), nil)
+			return runSource(fam+"+pad", pad+src, lexCtxs[:1], hasOpener(src), nil, nil)
 		})
 	}
 }
 
+// core sub-alphabets used one level deeper than the full ones
+var innerCore = []string{"x", "1", "'s'", "(", ")", "[", "]", "{", "}", "|", ".", ",", ":", "=", "in", "with", "only", "as", "import", "is"}
+var exprCore = []string{"x", "1", "'s'", "(", ")", "[", "]", "{", "}", "|", ".", ",", ":", "?", "-", "+", "~", "..", "==", "is", "not", "in", "and", "upper"}
+var delimCore = append(append([]string{}, delims...), "x", "if", "'s'", " ", "\n", "-", "{", "}", "%")
+
 func runLex(t *vlib.T) {
-	// bounds per tier
-	free, freeU, dl, tagIn, expr := 3, 2, 4, 2, 3
+	// bounds per tier: maximal number of lexemes
+	free, dlFull, dlCore, tagFull, tagCore, exprFull, exprCoreN := 3, 3, 4, 2, 3, 3, 4
 	if t.Thorough() {
-		free, freeU, dl, tagIn, expr = 4, 3, 5, 4, 5
+		free, dlFull, dlCore, tagFull, tagCore, exprFull, exprCoreN = 4, 4, 5, 3, 4, 4, 5
 	}
-	_ = freeU
 	var sb strings.Builder
 	join := func(parts []string, sep string) string {
 		sb.Reset()
@@ -103,52 +107,70 @@ func runLex(t *vlib.T) {
 		}
 		return sb.String()
 	}
-	// interleave the families by length so that a deadline cuts all of them at the same depth
-	maxn := free
-	for _, v := range []int{dl, tagIn + 1, expr} {
-		if v > maxn {
-			maxn = v
+	isOpener := map[string]bool{"{{": true, "{%": true, "{#": true, "{{-": true, "{%-": true, "{#-": true}
+	allTags := append(append([]string{}, openTags...), closeTags...)
+	tagCases := func(tag string, p []string) {
+		body := join(p, " ")
+		head := "{% " + tag
+		if body != "" {
+			head += " " + body
+		}
+		lexCase(t, "tu", head)
+		lexCase(t, "tc", head+" %}")
+		if end := endOf(tag); end != "" {
+			lexCase(t, "te", head+" %}x{% "+end+" %}")
 		}
 	}
-	for n := 0; n <= maxn && !t.Stopped(); n++ {
-		// (1) free sequences over the whole alphabet, spaced ("fs") and unspaced ("fu")
+	// the families are interleaved by length so that a deadline cuts all of them at the same depth
+	for n := 0; n <= 5 && !t.Stopped(); n++ {
+		// (1) free sequences over the whole alphabet, spaced ("fs") and unspaced ("fu"); from three
+		// lexemes on only sequences with at least one opening delimiter (the others are literal text,
+		// which lengths 0..2 cover)
 		if n <= free {
 			seqs(freeLex, n, func(p []string) {
+				if n >= 3 {
+					op := false
+					for _, l := range p {
+						op = op || isOpener[l]
+					}
+					if !op {
+						return
+					}
+				}
 				lexCase(t, "fs", join(p, " "))
 				if n >= 2 {
 					lexCase(t, "fu", join(p, ""))
 				}
 			})
 		}
-		// (2) delimiter-heavy unspaced sequences, plain and padded (both tokenizers)
-		if n <= dl && n >= 1 {
+		// (2) delimiter-heavy unspaced sequences, plain and behind the pad (both tokenizers)
+		if n >= 1 && n <= dlFull {
 			seqs(delimLex, n, func(p []string) { lexCase(t, "dP", join(p, "")) })
+		} else if n >= 1 && n <= dlCore {
+			seqs(delimCore, n, func(p []string) { lexCase(t, "dP", join(p, "")) })
 		}
 		// (3) {% tag <n inner lexemes> [%} [x {% endtag %}]]
-		if n <= tagIn {
-			for _, tag := range append(append([]string{}, openTags...), closeTags...) {
-				seqs(innerLex, n, func(p []string) {
-					body := join(p, " ")
-					head := "{% " + tag
-					if body != "" {
-						head += " " + body
-					}
-					lexCase(t, "tu", head)
-					lexCase(t, "tc", head+" %}")
-					if end := endOf(tag); end != "" {
-						lexCase(t, "te", head+" %}x{% "+end+" %}")
-					}
-				})
+		if n <= tagFull {
+			for _, tag := range allTags {
+				seqs(innerLex, n, func(p []string) { tagCases(tag, p) })
+			}
+		} else if n <= tagCore {
+			for _, tag := range allTags {
+				seqs(innerCore, n, func(p []string) { tagCases(tag, p) })
 			}
 		}
-		// (4) {{ <n expression lexemes> }} closed, and unclosed one level shallower
-		if n <= expr {
+		// (4) {{ <n expression lexemes> }} closed and unclosed
+		if n <= exprFull {
 			seqs(exprLex, n, func(p []string) {
 				body := join(p, " ")
 				lexCase(t, "ec", "{{ "+body+" }}")
-				if n < expr {
-					lexCase(t, "eu", "{{ "+body)
-				}
+				lexCase(t, "eu", "{{ "+body)
+			})
+		} else if n <= exprCoreN {
+			seqs(exprCore, n, func(p []string) {
+				body := join(p, " ")
+				lexCase(t, "ec", "{{ "+body+" }}")
+				lexCase(t, "eu", "{{ "+body)
 			})
 		}
 	}
